@@ -174,6 +174,8 @@ pub fn get(prop: &str, tier: &str) -> Option<Check> {
                 Batch { name: "client_lockstep", f: scen::client::run_lockstep, cfg: cfg(Mode::LockStep, true, 2), runs: n(20_000, 500_000), real: REAL_CLIENT_TCP, stub: STUB_CLIENT_TCP },
                 Batch { name: "tls_handshake_stall_client", f: scen::tls::run_handshake_stall, cfg: cfg(Mode::Racy, true, 0), runs: n(600, 20_000), real: REAL_TLS, stub: STUB_TLS },
                 Batch { name: "tls_handshake_stall_server", f: scen::tls::run_handshake_stall, cfg: cfg(Mode::Racy, true, 1), runs: n(600, 20_000), real: REAL_TLS, stub: STUB_TLS },
+                Batch { name: "backlog_vs_shutdown_tcp", f: scen::robust::run_backlog_vs_shutdown, cfg: cfg(Mode::Racy, true, 0), runs: n(20_000, 500_000), real: REAL_SERVER_TCP, stub: STUB_SERVER_TCP },
+                Batch { name: "backlog_vs_shutdown_rtu", f: scen::robust::run_backlog_vs_shutdown, cfg: cfg(Mode::Racy, true, 1), runs: n(5_000, 100_000), real: REAL_SERVER_RTU, stub: STUB_SERVER_RTU },
             ],
             assumptions: vec!["a peer that never reads is a bounded-liveness premise, not a violation (flow-control stalls are finite)", "TLS handshake phase: see C09 and the known finding on handshake deadlines"],
         },
